@@ -276,6 +276,17 @@ func (s *sim) fill(best *chainkit.Blk, items int) {
 		switch r.Pick([]int{22, 14, 14, 12, 8, 8, 8, 8, 6}) {
 		case 0: // valid spend
 			if u := s.take(best); u != nil {
+				if r.Chance(1, 8) {
+					// valid in every respect except the transaction version (blocks of version 1 take only
+					// version 1): whatever the pool does with it, the next template must be acceptable
+					tx := s.pay([]*chainkit.UTXO{u}, 1+r.Intn(2), s.fee(), 0)
+					d := tx.TxData
+					d.Version = uint64(2 + r.Intn(3))
+					d.SerializedSize = 0
+					s.submit(chainkit.Finish(&d), "tx-version>1")
+					s.used[u.ID] = false // its input stays available to others
+					break
+				}
 				s.submit(s.pay([]*chainkit.UTXO{u}, 1+r.Intn(3), s.fee(), 0), "valid")
 			}
 		case 1: // two spends of one output (+ sometimes a child of the later one)
@@ -1002,6 +1013,7 @@ func TestC38(t *testing.T) {
 	r.Floor("heavy_batches_with_first_k_total=limit+1", 2)
 	r.Floor("heavy_batches_with_first_k_total=limit-1", 2)
 	r.Floor("heavy_batches_over_limit", 2)
+	r.Floor("submitted:tx-version>1", 20)
 	r.Floor("heavy_batches_followed_by_children", 3)
 	r.Floor("admitted:child-of-gas-heavy", 100)
 	r.Floor("included:child-of-gas-heavy", 30)
